@@ -4,10 +4,12 @@ CONSTANTS
   InitLive = {}
   Variant = "unsync"
   AllowClone = TRUE
-  AllowTake2 = FALSE
+  AllowTake2 = TRUE
   AllowCancel = TRUE
   AllowSpurious = TRUE
   FileLayer = FALSE
+  SilentRelease = FALSE
+  ForgetsHandle = FALSE
 SPECIFICATION FairSpec
-INVARIANTS Safe NoStrandUnlessSilent
+INVARIANTS Safe NoStrand
 PROPERTIES Live NoLeakLive
